@@ -25,6 +25,8 @@ type Config struct {
 	MapOrderMax  int
 	ChanSlack    int // extra capacity granted to every channel (0 = exact Go semantics without blocking)
 	GoInline     bool
+	Sched        bool // tier 2: cooperative goroutines
+	SchedBudget  int  // number of scheduling choices explored by forking
 	UnwindCap    int   // max symbolic decisions at one instruction per path
 	ConcCap      int   // max values enumerated when concretising one term
 	AllocLimit   int64 // engine's own allocation cap (elements)
@@ -134,6 +136,10 @@ type Exec struct {
 	model         map[string]uint64
 	evalr         *sym.Evaluator
 	known         map[int32]bool
+	pinned        map[string]uint64 // variables the path condition equates with a constant
+	pinEval       *sym.Evaluator
+	sch           *scheduler
+	atomicDepth   int
 
 	// cumulative
 	funcs      map[string]string
@@ -376,6 +382,76 @@ func (ex *Exec) assertPC(t *sym.Term) {
 			ex.model, ex.evalr = nil, nil
 		}
 	}
+	ex.tryPin(t)
+}
+
+// tryPin: after asserting expr == const where expr depends on a single
+// variable, one extra query decides whether that variable is now determined
+// (as in a switch over a decoded rune); if so it is pinned and later conditions
+// over it are decided by evaluation instead of by hundreds of unsat queries.
+func (ex *Exec) tryPin(t *sym.Term) {
+	if t.Op != sym.OEq || len(t.Args) != 2 {
+		return
+	}
+	a, b := t.Args[0], t.Args[1]
+	if a.Op == sym.OConst {
+		a, b = b, a
+	}
+	if b.Op != sym.OConst || a.Op == sym.OVar {
+		return
+	}
+	var v *sym.Term
+	seen := map[*sym.Term]bool{}
+	budget := 4000
+	var walk func(x *sym.Term) bool
+	walk = func(x *sym.Term) bool {
+		if seen[x] {
+			return true
+		}
+		seen[x] = true
+		budget--
+		if budget < 0 {
+			return false
+		}
+		switch x.Op {
+		case sym.OVar:
+			if v != nil && v != x {
+				return false
+			}
+			v = x
+			return true
+		case sym.OUF:
+			return false
+		}
+		for _, y := range x.Args {
+			if !walk(y) {
+				return false
+			}
+		}
+		return true
+	}
+	if !walk(a) || v == nil || v.W == 0 {
+		return
+	}
+	if _, have := ex.pinned[v.Name]; have {
+		return
+	}
+	r, m := ex.solver.Check(sym.True, []*sym.Term{v})
+	if r != sym.Sat || m == nil {
+		return
+	}
+	val, ok := m[v]
+	if !ok {
+		return
+	}
+	if r2, _ := ex.solver.Check(ex.ctx.BNot(ex.ctx.Cmp(sym.OEq, v, sym.Const(v.W, val))), nil); r2 != sym.Unsat {
+		return
+	}
+	if ex.pinned == nil {
+		ex.pinned = map[string]uint64{}
+	}
+	ex.pinned[v.Name] = val
+	ex.pinEval = sym.NewEvaluator(ex.pinned)
 }
 
 // learn records the truth value of a decided condition (by term identity) so
@@ -398,6 +474,23 @@ func (ex *Exec) learn(t *sym.Term, val bool) {
 	if id := t.ID(); id != 0 {
 		ex.known[id] = val
 	}
+	if val && t.Op == sym.OEq && len(t.Args) == 2 {
+		// x == const on the path: later conditions over pinned variables only are
+		// decided by evaluation
+		a, b := t.Args[0], t.Args[1]
+		if a.Op == sym.OConst {
+			a, b = b, a
+		}
+		if a.Op == sym.OVar && b.Op == sym.OConst {
+			if ex.pinned == nil {
+				ex.pinned = map[string]uint64{}
+			}
+			if _, have := ex.pinned[a.Name]; !have {
+				ex.pinned[a.Name] = b.Val
+				ex.pinEval = sym.NewEvaluator(ex.pinned)
+			}
+		}
+	}
 }
 
 func (ex *Exec) knownVal(t *sym.Term) (bool, bool) {
@@ -408,6 +501,11 @@ func (ex *Exec) knownVal(t *sym.Term) (bool, bool) {
 	if id := t.ID(); id != 0 {
 		if v, ok := ex.known[id]; ok {
 			return v != neg, true
+		}
+	}
+	if ex.pinEval != nil && t.W == 0 {
+		if v, ok := ex.pinEval.Eval(t); ok {
+			return (v == 1) != neg, true
 		}
 	}
 	return false, false
@@ -444,6 +542,9 @@ func (ex *Exec) noteSite(in ssa.Instruction, fr *frame) {
 		return
 	}
 	ex.siteCount[in]++
+	if ex.cfg.Debug && fr != nil && ex.pos_ >= len(ex.prefix) {
+		fmt.Printf("FORKSITE %s\n", ex.instrPos(fr, in))
+	}
 	if ex.siteCount[in] > ex.cfg.UnwindCap {
 		where := "?"
 		if fr != nil {
@@ -877,6 +978,7 @@ func (ex *Exec) resetPath() {
 	ex.modelOnly = false
 	ex.model, ex.evalr = nil, nil
 	ex.known = map[int32]bool{}
+	ex.pinned, ex.pinEval = nil, nil
 }
 
 // RunPath executes job along prefix and returns the outcome plus the
@@ -887,11 +989,20 @@ func (ex *Exec) RunPath(job *Job, prefix []Decision) (res PathResult, alts [][]D
 	ex.ctx.FPExact = job.Meta["fpexact"] == "1"
 	ex.job = job
 	ex.prefix = prefix
+	if job.Meta["sched"] == "1" {
+		ex.schedReset()
+	}
 	defer func() {
+		r := recover()
+		// stop every other goroutine of the path before touching shared state
+		func() {
+			defer func() { recover() }()
+			ex.schedKillAll()
+		}()
 		alts = ex.pending
 		res.Steps = ex.steps
 		res.Decisions = len(ex.trace)
-		if r := recover(); r != nil {
+		if r != nil {
 			switch r := r.(type) {
 			case pathEnd:
 				res.Kind, res.Why = r.kind, r.why
